@@ -233,14 +233,7 @@ fn one_case(ctx: &mut Ctx, index: u64, bytes: &[u8], class: &str) {
             }
         }
         // timing groups: every timing point has its own line and survives
-        let near_pairs = m.control_points.timing_points.windows(2).filter(|w| (w[1].time - w[0].time).abs() < f64::EPSILON).count();
-        if m2.control_points.timing_points.len() != m.control_points.timing_points.len()
-            && near_pairs > 0
-            && m.control_points.timing_points.len() - m2.control_points.timing_points.len() <= near_pairs
-        {
-            // D18: the decoder groups lines whose times differ by less than f64::EPSILON
-            ctx.known("D18-timing-points-closer-than-epsilon", "two timing points whose times differ by less than f64::EPSILON (possible only next to time zero) are written as two lines that the decoder's grouping merges".into());
-        } else if m2.control_points.timing_points.len() != m.control_points.timing_points.len() {
+        if m2.control_points.timing_points.len() != m.control_points.timing_points.len() {
             ctx.violation(
                 "timing_point_count_changed",
                 format!("{} timing points read back as {}", m.control_points.timing_points.len(), m2.control_points.timing_points.len()),
